@@ -440,7 +440,7 @@ def _query(ctx, P, obj, p, policy, model, step, nset):
                                           PLm[i]), t)
         if scal[i] is not None:
             ctx.close("array_vs_scalar", abs(R[i] - scal[i]),
-                      1e-12 * max(1.0, abs(scal[i])),
+                      1e-11 * max(1.0, abs(scal[i])),
                       "d=%r: array %r, scalar %r" % (ds[i], R[i], scal[i]), t)
         ref = 10.0 ** (-R[i] / 10.0)
         ctx.close("linear_vs_dB", _rel(Lin[i], ref), 1e-12,
